@@ -1,7 +1,7 @@
 (* pins for C13: statements of the property theorems as of the time of pinning *)
 From Coq Require Import NArith List Bool.
 From Blue Require Import Mani.Model Mani.Fs Mani.ModelMani Mani.ProofsOrder Mani.ProofsFormat
-  Mani.ProofsFs Mani.ProofsCrash Mani.ProofsLts Mani.ProofsChain Mani.ProofsChainLts Mani.ProofsVerify Mani.ProofsIter.
+  Mani.ProofsFs Mani.ProofsCrash Mani.ProofsLts Mani.ProofsChain Mani.ProofsChainLts Mani.ProofsVerify Mani.ProofsIter Mani.Lock Mani.ProofsLock.
 Import ListNotations.
 Open Scope N_scope.
 From Blue Require Import Mani.Props_C13.
@@ -16,3 +16,6 @@ Check C13_truncation_prefix : forall crc es n, Forall wf_edit es -> (exists x, r
 Check C13_open_is_read : forall crc ratio s, fs_ok s -> match read_mani crc (content FMani s) with | Ok st => exists m w, m_open crc ratio (s, []) = Ok (m, w) /\ m_st m = st | Err x => m_open crc ratio (s, []) = Err x | Panic => False end.
 Check C13_apply_never_fails : forall crc ratio c m e, reach crc ratio c -> c_h c = Some m -> wf_edit e -> exists m' w, m_apply crc m e (c_fs c, []) = Ok (m', w) /\ m_st m' = apply_edit e (m_st m).
 Check C13_edit_api_exact : forall s, (check_str s = Ok s <-> wf_str s) /\ (forall c u, check_key c = Ok u <-> wf_key c) /\ wf_edit empty_edit /\ (forall e e' x, wf_edit e -> edit_add e x = Ok e' -> wf_edit e') /\ (forall e e' x, wf_edit e -> edit_rm e x = Ok e' -> wf_edit e') /\ (forall e e' c x, wf_edit e -> edit_info e c x = Ok e' -> wf_edit e').
+Check C13_lock_exclusive : forall es p q, l_held (lrun TableFirst es linit) p = true -> l_held (lrun TableFirst es linit) q = true -> p = q.
+Check C13_lock_holder_owns_kernel_lock : forall es p, l_held (lrun TableFirst es linit) p = true -> l_owner (lrun TableFirst es linit) = Some p.
+Check C13_lock_open_before_table_unsound : exists es, l_held (lrun OpenFirst es linit) 0%nat = true /\ l_held (lrun OpenFirst es linit) 1%nat = true /\ l_owner (lrun OpenFirst es linit) = Some 1%nat.
